@@ -120,6 +120,10 @@ def run(F, rep, tier):
     import core
     import c01
     import irp
+    # `==` on enum values is structural whoever made them: the library's variants and the ones the compiler writes have one shape
+    import c18
+    core.borrow(rep, lambda F_, r_: c18.maybe_shape(F_, r_, c18.Lua(F_.read("sylt-compiler/src/preamble.lua"))),
+                lambda o: o["rule"] == "MAYBE-SHAPE", F)
     core.borrow(rep, lambda F_, r_: c01.pipe_rules(F_, r_, irp.Tables(F_)),
                 lambda o: o["rule"] == "PIPE" and o["key"].startswith(("lowering|", "emission|")), F)
 
